@@ -2,7 +2,7 @@ import MdIt.Props.C06c
 /-!
 # C07 (continued) — what follows a top-level block parses as if it stood alone, with its line numbers shifted
 
-A second simulation, with a *line shift*: two runs of the chains are related (`TR k n spre pre s s'`) when the line table of the
+A second simulation, with a *line shift*: two runs of the chains are related (`TR tt pp k n spre pre s s'`) when the line table of the
 second, from index `n` on, equals that of the first up to `bsCount`, `line` / `lineMax` of the second are those of the first
 plus `n`, levels differ by `k`, and the tokens of the second are a fixed prefix followed by the tokens of the first with
 `level + k` and maps shifted by `n`.  What lies before index `n` in the second table, the prefix `pre`, `tight` and
@@ -22,7 +22,7 @@ def shiftM (n : Nat) : Option (Nat × Nat) → Option (Nat × Nat)
 def _root_.MdIt.Tok.shift2 (k : Int) (n : Nat) : Tok → Tok
   | .mk ty tag ne a m lvl ch c mku info md b h => .mk ty tag ne a (shiftM n m) (lvl + k) ch c mku info md b h
 
-structure TR (k : Int) (n : Nat) (spre pre : List Tok) (s s' : BState) : Prop where
+structure TR (tt pp : Bool) (k : Int) (n : Nat) (spre pre : List Tok) (s s' : BState) : Prop where
   lines : LR s.lines (s'.lines.drop n)
   len : s'.lines.length = s.lines.length + n
   notab : NoTab s.lines
@@ -31,9 +31,11 @@ structure TR (k : Int) (n : Nat) (spre pre : List Tok) (s s' : BState) : Prop wh
   blkIndent : s'.blkIndent = s.blkIndent
   level : s'.level = s.level + k
   listIndent : s'.listIndent = s.listIndent
+  tight : tt = true → s'.tight = s.tight
+  parent : pp = true → s'.parentType = s.parentType
   tokens : ∃ ts, s.tokens = spre ++ ts ∧ s'.tokens = pre ++ ts.map (Tok.shift2 k n)
 
-theorem TR.get {k n spre pre s s'} (h : TR k n spre pre s s') (i j : Nat) (hj : j = i + n) (l : BLine) (hl : s.lines[i]? = some l) :
+theorem TR.get {tt pp k n spre pre s s'} (h : TR tt pp k n spre pre s s') (i j : Nat) (hj : j = i + n) (l : BLine) (hl : s.lines[i]? = some l) :
     ∃ l', s'.lines[j]? = some l' ∧ zb l' = zb l := by
   obtain ⟨l', h1, h2⟩ := h.lines.get i l hl
   rw [List.getElem?_drop] at h1
@@ -41,12 +43,12 @@ theorem TR.get {k n spre pre s s'} (h : TR k n spre pre s s') (i j : Nat) (hj : 
   rw [Nat.add_comm] at h1
   exact ⟨l', h1, h2⟩
 
-theorem TR.get_none {k n spre pre s s'} (h : TR k n spre pre s s') (i j : Nat) (hj : j = i + n) (hl : s.lines[i]? = none) :
+theorem TR.get_none {tt pp k n spre pre s s'} (h : TR tt pp k n spre pre s s') (i j : Nat) (hj : j = i + n) (hl : s.lines[i]? = none) :
     s'.lines[j]? = none := by
   rw [List.getElem?_eq_none_iff] at hl ⊢
   rw [h.len]; omega
 
-theorem getL_sh {k n spre pre s s'} (h : TR k n spre pre s s') (i j : Nat) (hj : j = i + n) (l : BLine) (hg : getL s i = .ok l) :
+theorem getL_sh {tt pp k n spre pre s s'} (h : TR tt pp k n spre pre s s') (i j : Nat) (hj : j = i + n) (l : BLine) (hg : getL s i = .ok l) :
     ∃ l', getL s' j = .ok l' ∧ zb l' = zb l ∧ '\t' ∉ l.text := by
   have hl : s.lines[i]? = some l := by
     unfold getL at hg
@@ -56,7 +58,7 @@ theorem getL_sh {k n spre pre s s'} (h : TR k n spre pre s s') (i j : Nat) (hj :
   obtain ⟨l', h1, h2⟩ := h.get i j hj l hl
   exact ⟨l', getL_of_here h1, h2, h.notab l (List.mem_of_getElem? hl)⟩
 
-theorem isCode_sh {k n spre pre s s'} (h : TR k n spre pre s s') (codeOn : Bool) {l l' : BLine} (hz : zb l' = zb l) :
+theorem isCode_sh {tt pp k n spre pre s s'} (h : TR tt pp k n spre pre s s') (codeOn : Bool) {l l' : BLine} (hz : zb l' = zb l) :
     isCodeLine codeOn s' l' = isCodeLine codeOn s l := by
   simp [isCodeLine, (zb_eq hz).1, h.blkIndent]
 
@@ -70,9 +72,9 @@ theorem shift2_pushed (k : Int) (n : Nat) (s s' : BState) (hl : s'.level = s.lev
   · simp only [pushedTok, Tok.shift2, hl, hn, if_true]; congr 1; omega
   · simp only [pushedTok, Tok.shift2, hl, hn, if_false]
 
-theorem TR.push {k n spre pre s s'} (h : TR k n spre pre s s') (a b : String) (ne : Int) (m m' c d e f) (hm : m' = shiftM n m) :
-    TR k n spre pre (s.pushFull a b ne m c d e f) (s'.pushFull a b ne m' c d e f) := by
-  refine ⟨h.lines, h.len, h.notab, h.line, h.lineMax, h.blkIndent, ?_, h.listIndent, ?_⟩
+theorem TR.push {tt pp k n spre pre s s'} (h : TR tt pp k n spre pre s s') (a b : String) (ne : Int) (m m' c d e f) (hm : m' = shiftM n m) :
+    TR tt pp k n spre pre (s.pushFull a b ne m c d e f) (s'.pushFull a b ne m' c d e f) := by
+  refine ⟨h.lines, h.len, h.notab, h.line, h.lineMax, h.blkIndent, ?_, h.listIndent, h.tight, h.parent, ?_⟩
   · simp only [BState.pushFull, h.level]; split <;> split <;> omega
   · obtain ⟨ts, a1, a2⟩ := h.tokens
     refine ⟨ts ++ [pushedTok s a b ne m c d e f], ?_, ?_⟩
@@ -82,15 +84,16 @@ theorem TR.push {k n spre pre s s'} (h : TR k n spre pre s s') (a b : String) (n
 theorem shiftM_some {n a b a' b' : Nat} (ha : a' = a + n) (hb : b' = b + n) : some (a', b') = shiftM n (some (a, b)) := by
   subst ha; subst hb; rfl
 
-theorem TR.setLineNo {k n spre pre s s'} (h : TR k n spre pre s s') (a a' : Nat) (ha : a' = a + n) :
-    TR k n spre pre { s with line := a } { s' with line := a' } :=
-  ⟨h.lines, h.len, h.notab, ha, h.lineMax, h.blkIndent, h.level, h.listIndent, h.tokens⟩
+theorem TR.setLineNo {tt pp k n spre pre s s'} (h : TR tt pp k n spre pre s s') (a a' : Nat) (ha : a' = a + n) :
+    TR tt pp k n spre pre { s with line := a } { s' with line := a' } :=
+  ⟨h.lines, h.len, h.notab, ha, h.lineMax, h.blkIndent, h.level, h.listIndent, h.tight, h.parent, h.tokens⟩
 
 /-! ### simulation of rules -/
 
 def ShSim (k : Int) (n : Nat) (r r' : BRule) : Prop :=
-  ∀ spre pre s s' line endLine silent m t, TR k n spre pre s s' → r s line endLine silent = .ok (m, t) →
-    ∃ t', r' s' (line + n) (endLine + n) silent = .ok (m, t') ∧ TR k n spre pre t t'
+  ∀ tt pp spre pre s s' line endLine silent m t, TR tt pp k n spre pre s s' → (silent = true → pp = true) →
+    r s line endLine silent = .ok (m, t) →
+    ∃ t', r' s' (line + n) (endLine + n) silent = .ok (m, t') ∧ TR tt pp k n spre pre t t'
 
 theorem getL_cases {s : BState} {i : Nat} {α} {f : BLine → Except PyErr α} {r : α}
     (h : (match getL s i with | .error e => (Except.error e : Except PyErr α) | .ok l => f l) = .ok r) : ∃ l, getL s i = .ok l ∧ f l = .ok r := by
@@ -102,7 +105,7 @@ macro "sh_same" h:ident hsr:term : tactic =>
   `(tactic| (simp only [Except.ok.injEq, Prod.mk.injEq] at $h:ident; obtain ⟨h1, h2⟩ := $h:ident; subst h1; subst h2; exact ⟨_, rfl, $hsr⟩))
 
 theorem sh_hr (k : Int) (n : Nat) (codeOn : Bool) : ShSim k n (ruleHr codeOn) (ruleHr codeOn) := by
-  intro spre pre s s' line endLine silent m t hsr h
+  intro tt pp spre pre s s' line endLine silent m t hsr hsil h
   unfold ruleHr at h
   obtain ⟨l, hg, h⟩ := getL_cases h
   obtain ⟨l', hg', hz, _⟩ := getL_sh hsr line (line + n) rfl l hg
@@ -117,7 +120,7 @@ theorem sh_hr (k : Int) (n : Nat) (codeOn : Bool) : ShSim k n (ruleHr codeOn) (r
 
 /-! ### `getLines` -/
 
-theorem getLinesGo_sh {k n spre pre s s'} (h : TR k n spre pre s s') (end_ : Nat) (indent : Int) (keep : Bool) :
+theorem getLinesGo_sh {tt pp k n spre pre s s'} (h : TR tt pp k n spre pre s s') (end_ : Nat) (indent : Int) (keep : Bool) :
     ∀ (m line : Nat) (acc c : List Char), getLinesGo s end_ indent keep m line acc = .ok c →
       getLinesGo s' (end_ + n) indent keep m (line + n) acc = .ok c := by
   intro m
@@ -147,7 +150,7 @@ theorem getLinesGo_sh {k n spre pre s s'} (h : TR k n spre pre s s') (end_ : Nat
     rw [e]
     exact ih _ _ _ hc
 
-theorem getLinesB_sh {k n spre pre s s'} (h : TR k n spre pre s s') (b e b' e' : Nat) (hb : b' = b + n) (he : e' = e + n) (indent : Int) (keep : Bool)
+theorem getLinesB_sh {tt pp k n spre pre s s'} (h : TR tt pp k n spre pre s s') (b e b' e' : Nat) (hb : b' = b + n) (he : e' = e + n) (indent : Int) (keep : Bool)
     (c : List Char) (hc : getLinesB s b e indent keep = .ok c) : getLinesB s' b' e' indent keep = .ok c := by
   subst hb; subst he
   unfold getLinesB at hc ⊢
@@ -160,7 +163,7 @@ theorem getLinesB_sh {k n spre pre s s'} (h : TR k n spre pre s s') (b e b' e' :
     simpa [getLinesGo] using hc
 
 theorem sh_heading (k : Int) (n : Nat) (codeOn : Bool) (ws : List Nat) : ShSim k n (ruleHeading codeOn ws) (ruleHeading codeOn ws) := by
-  intro spre pre s s' line endLine silent m t hsr h
+  intro tt pp spre pre s s' line endLine silent m t hsr hsil h
   unfold ruleHeading at h
   obtain ⟨l, hg, h⟩ := getL_cases h
   obtain ⟨l', hg', hz, _⟩ := getL_sh hsr line (line + n) rfl l hg
@@ -185,7 +188,7 @@ theorem sh_heading (k : Int) (n : Nat) (codeOn : Bool) (ws : List Nat) : ShSim k
             · sh_same h hsr
   · sh_same h hsr
 
-theorem codeScan_sh {k n spre pre s s'} (h : TR k n spre pre s s') (codeOn : Bool) (endLine : Nat) :
+theorem codeScan_sh {tt pp k n spre pre s s'} (h : TR tt pp k n spre pre s s') (codeOn : Bool) (endLine : Nat) :
     ∀ (fuel next last r : Nat), codeScan codeOn s endLine fuel next last = .ok r →
       codeScan codeOn s' (endLine + n) fuel (next + n) (last + n) = .ok (r + n) := by
   intro fuel
@@ -215,7 +218,7 @@ theorem codeScan_sh {k n spre pre s s'} (h : TR k n spre pre s s') (codeOn : Boo
       simp only [Except.ok.injEq] at hr ⊢; omega
 
 theorem sh_code (k : Int) (n : Nat) (codeOn : Bool) : ShSim k n (ruleCode codeOn) (ruleCode codeOn) := by
-  intro spre pre s s' line endLine silent m t hsr h
+  intro tt pp spre pre s s' line endLine silent m t hsr hsil h
   unfold ruleCode at h
   obtain ⟨l, hg, h⟩ := getL_cases h
   obtain ⟨l', hg', hz, _⟩ := getL_sh hsr line (line + n) rfl l hg
@@ -239,7 +242,7 @@ theorem sh_code (k : Int) (n : Nat) (codeOn : Bool) : ShSim k n (ruleCode codeOn
         simp only [e]
         sh_same h ((hsr.setLineNo last _ rfl).push _ _ _ _ _ _ _ _ _ rfl)
 
-theorem fenceScan_sh {k n spre pre s s'} (h : TR k n spre pre s s') (codeOn : Bool) (endLine : Nat) (marker : Char) (len : Nat) :
+theorem fenceScan_sh {tt pp k n spre pre s s'} (h : TR tt pp k n spre pre s s') (codeOn : Bool) (endLine : Nat) (marker : Char) (len : Nat) :
     ∀ (fuel prev : Nat) (r : Nat × Bool), fenceScan codeOn s endLine marker len fuel prev = .ok r →
       fenceScan codeOn s' (endLine + n) marker len fuel (prev + n) = .ok (r.1 + n, r.2) := by
   intro fuel
@@ -293,7 +296,7 @@ theorem fenceScan_sh {k n spre pre s s'} (h : TR k n spre pre s s') (codeOn : Bo
                 · rename_i h5; simp only [h5, ↓reduceIte]; rw [e]; exact ih _ _ hr
 
 theorem sh_fence (k : Int) (n : Nat) (codeOn : Bool) : ShSim k n (ruleFence codeOn) (ruleFence codeOn) := by
-  intro spre pre s s' line endLine silent m t hsr h
+  intro tt pp spre pre s s' line endLine silent m t hsr hsil h
   unfold ruleFence at h
   obtain ⟨l, hg, h⟩ := getL_cases h
   obtain ⟨l', hg', hz, _⟩ := getL_sh hsr line (line + n) rfl l hg
@@ -353,23 +356,23 @@ theorem ShSims.opt {k n} (c : Bool) {r r' : BRule} (h : ShSim k n r r') : ShSims
   · exact .cons h .nil
 
 theorem runTerminators_sh {k n} {ts ts' : List BRule} (hs : ShSims k n ts ts') :
-    ∀ {spre pre s s'} (line endLine : Nat) (b : Bool) (s1 : BState), TR k n spre pre s s' → runTerminators ts s line endLine = .ok (b, s1) →
-      ∃ s1', runTerminators ts' s' (line + n) (endLine + n) = .ok (b, s1') ∧ TR k n spre pre s1 s1' := by
+    ∀ {tt spre pre s s'} (line endLine : Nat) (b : Bool) (s1 : BState), TR tt true k n spre pre s s' → runTerminators ts s line endLine = .ok (b, s1) →
+      ∃ s1', runTerminators ts' s' (line + n) (endLine + n) = .ok (b, s1') ∧ TR tt true k n spre pre s1 s1' := by
   induction hs with
   | nil =>
-    intro spre pre s s' line endLine b s1 hsr h
+    intro tt spre pre s s' line endLine b s1 hsr h
     simp only [runTerminators, Except.ok.injEq, Prod.mk.injEq] at h
     obtain ⟨h1, h2⟩ := h; subst h1; subst h2
     exact ⟨_, rfl, hsr⟩
   | @cons r r' rs rs' hr _ ih =>
-    intro spre pre s s' line endLine b s1 hsr h
+    intro tt spre pre s s' line endLine b s1 hsr h
     simp only [runTerminators] at h ⊢
     cases hq : r s line endLine true with
     | error e => rw [hq] at h; cases h
     | ok v =>
       obtain ⟨m, t⟩ := v
       rw [hq] at h
-      obtain ⟨t', hq', hsr'⟩ := hr spre pre s s' line endLine true m t hsr hq
+      obtain ⟨t', hq', hsr'⟩ := hr tt true spre pre s s' line endLine true m t hsr (fun _ => rfl) hq
       rw [hq']
       cases m with
       | true =>
@@ -379,13 +382,13 @@ theorem runTerminators_sh {k n} {ts ts' : List BRule} (hs : ShSims k n ts ts') :
       | false => exact ih line endLine b s1 hsr' h
 
 theorem paraScan_sh {k n} {ts ts' : List BRule} (hs : ShSims k n ts ts') (endLine : Nat) :
-    ∀ (fuel next : Nat) {spre pre s s'} (r : Nat) (s1 : BState), TR k n spre pre s s' → paraScan ts endLine fuel next s = .ok (r, s1) →
-      ∃ s1', paraScan ts' (endLine + n) fuel (next + n) s' = .ok (r + n, s1') ∧ TR k n spre pre s1 s1' := by
+    ∀ (fuel next : Nat) {tt spre pre s s'} (r : Nat) (s1 : BState), TR tt true k n spre pre s s' → paraScan ts endLine fuel next s = .ok (r, s1) →
+      ∃ s1', paraScan ts' (endLine + n) fuel (next + n) s' = .ok (r + n, s1') ∧ TR tt true k n spre pre s1 s1' := by
   intro fuel
   induction fuel with
-  | zero => intro next spre pre s s' r s1 _ h; simp [paraScan] at h
+  | zero => intro next tt spre pre s s' r s1 _ h; simp [paraScan] at h
   | succ f ih =>
-    intro next spre pre s s' r s1 hsr h
+    intro next tt spre pre s s' r s1 hsr h
     simp only [paraScan] at h ⊢
     have c0 : (next + n < endLine + n) = (next < endLine) := propext ⟨fun h => by omega, fun h => by omega⟩
     have e : next + n + 1 = next + 1 + n := by omega
@@ -424,19 +427,20 @@ theorem paraScan_sh {k n} {ts ts' : List BRule} (hs : ShSims k n ts ts') (endLin
       simp only [hlt, ↓reduceIte]
       simp only [Except.ok.injEq, Prod.mk.injEq] at h; obtain ⟨e1, e2⟩ := h; subst e1; subst e2; exact ⟨_, rfl, hsr⟩
 
-theorem TR.setParent {k n spre pre s s'} (h : TR k n spre pre s s') (p p' : String) : TR k n spre pre { s with parentType := p } { s' with parentType := p' } :=
-  ⟨h.lines, h.len, h.notab, h.line, h.lineMax, h.blkIndent, h.level, h.listIndent, h.tokens⟩
+theorem TR.setParent {tt pp k n spre pre s s'} (h : TR tt pp k n spre pre s s') (pp0 : Bool) (p p' : String) (hp : pp0 = true → p' = p) :
+    TR tt pp0 k n spre pre { s with parentType := p } { s' with parentType := p' } :=
+  ⟨h.lines, h.len, h.notab, h.line, h.lineMax, h.blkIndent, h.level, h.listIndent, h.tight, hp, h.tokens⟩
 
 theorem sh_paragraph (k : Int) (n : Nat) {ts ts' : List BRule} (hs : ShSims k n ts ts') (ws : List Nat) :
     ShSim k n (ruleParagraph ts ws) (ruleParagraph ts' ws) := by
-  intro spre pre s s' line endLine silent m t hsr h
+  intro tt pp spre pre s s' line endLine silent m t hsr hsil h
   simp only [ruleParagraph] at h ⊢
   cases hq : paraScan ts s.lineMax (s.lineMax - line + 1) (line + 1) { s with parentType := "paragraph" } with
   | error e => rw [hq] at h; cases h
   | ok v =>
     obtain ⟨next, s1⟩ := v
     rw [hq] at h
-    obtain ⟨s1', hq', hsr1⟩ := paraScan_sh hs s.lineMax _ _ next s1 (hsr.setParent "paragraph" "paragraph") hq
+    obtain ⟨s1', hq', hsr1⟩ := paraScan_sh hs s.lineMax _ _ next s1 (hsr.setParent true "paragraph" "paragraph" (fun _ => rfl)) hq
     have hq'' : paraScan ts' s'.lineMax (s'.lineMax - (line + n) + 1) (line + n + 1) { s' with parentType := "paragraph" } = .ok (next + n, s1') := by
       have e1 : s'.lineMax - (line + n) + 1 = s.lineMax - line + 1 := by rw [hsr.lineMax]; omega
       have e2 : line + n + 1 = line + 1 + n := by omega
@@ -457,11 +461,11 @@ theorem sh_paragraph (k : Int) (n : Nat) {ts ts' : List BRule} (hs : ShSims k n 
       refine ⟨_, rfl, ?_⟩
       have h3 := (((hsr1.setLineNo next (next + n) rfl).push "paragraph_open" "p" 1 (some (line, next)) (some (line + n, next + n)) none "" "" "" rfl).push
         "inline" "" 0 (some (line, next)) (some (line + n, next + n)) (some []) (String.ofList (pyStrip ws c)) "" "" rfl).push "paragraph_close" "p" (-1) none none none "" "" "" rfl
-      exact h3.setParent s.parentType s'.parentType
+      exact h3.setParent pp s.parentType s'.parentType hsr.parent
 
 /-! ### the loop -/
 
-theorem skipEmptyLines_sh {k n spre pre s s'} (h : TR k n spre pre s s') : ∀ (fuel from_ : Nat),
+theorem skipEmptyLines_sh {tt pp k n spre pre s s'} (h : TR tt pp k n spre pre s s') : ∀ (fuel from_ : Nat),
     skipEmptyLines s' fuel (from_ + n) = skipEmptyLines s fuel from_ + n := by
   intro fuel
   induction fuel with
@@ -506,7 +510,7 @@ theorem skipEmptyLines_fuel (s : BState) : ∀ (f f' from_ : Nat), s.lineMax - f
           · rfl
       · rfl
 
-theorem isEmpty_sh {k n spre pre s s'} (h : TR k n spre pre s s') (i : Nat) : s'.isEmpty ((i + n : Nat) : Int) = s.isEmpty (i : Int) := by
+theorem isEmpty_sh {tt pp k n spre pre s s'} (h : TR tt pp k n spre pre s s') (i : Nat) : s'.isEmpty ((i + n : Nat) : Int) = s.isEmpty (i : Int) := by
   unfold BState.isEmpty idx
   have h1 : ¬ (((i + n : Nat) : Int) < 0) := by omega
   have h2 : ¬ ((i : Int) < 0) := by omega
@@ -521,23 +525,23 @@ theorem isEmpty_sh {k n spre pre s s'} (h : TR k n spre pre s s') (i : Nat) : s'
     simp only [a1, zb_empty a2]
 
 theorem runBlockChain_sh {k n} {rs rs' : List BRule} (hs : ShSims k n rs rs') :
-    ∀ {spre pre s s'} (line endLine : Nat) (b : Bool) (s1 : BState), TR k n spre pre s s' → runBlockChain rs s line endLine = .ok (b, s1) →
-      ∃ s1', runBlockChain rs' s' (line + n) (endLine + n) = .ok (b, s1') ∧ TR k n spre pre s1 s1' := by
+    ∀ {tt pp spre pre s s'} (line endLine : Nat) (b : Bool) (s1 : BState), TR tt pp k n spre pre s s' → runBlockChain rs s line endLine = .ok (b, s1) →
+      ∃ s1', runBlockChain rs' s' (line + n) (endLine + n) = .ok (b, s1') ∧ TR tt pp k n spre pre s1 s1' := by
   induction hs with
   | nil =>
-    intro spre pre s s' line endLine b s1 hsr h
+    intro tt pp spre pre s s' line endLine b s1 hsr h
     simp only [runBlockChain, Except.ok.injEq, Prod.mk.injEq] at h
     obtain ⟨h1, h2⟩ := h; subst h1; subst h2
     exact ⟨_, rfl, hsr⟩
   | @cons r r' rs rs' hr _ ih =>
-    intro spre pre s s' line endLine b s1 hsr h
+    intro tt pp spre pre s s' line endLine b s1 hsr h
     simp only [runBlockChain] at h ⊢
     cases hq : r s line endLine false with
     | error e => rw [hq] at h; cases h
     | ok v =>
       obtain ⟨m, t⟩ := v
       rw [hq] at h
-      obtain ⟨t', hq', hsr'⟩ := hr spre pre s s' line endLine false m t hsr hq
+      obtain ⟨t', hq', hsr'⟩ := hr tt pp spre pre s s' line endLine false m t hsr (fun h => by cases h) hq
       rw [hq']
       cases m with
       | true =>
@@ -546,16 +550,18 @@ theorem runBlockChain_sh {k n} {rs rs' : List BRule} (hs : ShSims k n rs rs') :
         exact ⟨_, rfl, hsr'⟩
       | false => exact ih line endLine b s1 hsr' h
 
-theorem TR.setTight {k n spre pre s s'} (h : TR k n spre pre s s') (b b' : Bool) : TR k n spre pre { s with tight := b } { s' with tight := b' } :=
-  ⟨h.lines, h.len, h.notab, h.line, h.lineMax, h.blkIndent, h.level, h.listIndent, h.tokens⟩
+theorem TR.setTight {tt pp k n spre pre s s'} (h : TR tt pp k n spre pre s s') (b b' : Bool) (hb : tt = true → b' = b) :
+    TR tt pp k n spre pre { s with tight := b } { s' with tight := b' } :=
+  ⟨h.lines, h.len, h.notab, h.line, h.lineMax, h.blkIndent, h.level, h.listIndent, hb, h.parent, h.tokens⟩
 
 theorem blockLoop_sh {k n} {rules rules' : List BRule} (hs : ShSims k n rules rules') (mn : Int) (endLine : Nat) :
-    ∀ (fuel line : Nat) (he he' : Bool) {spre pre s s'} (t : BState), TR k n spre pre s s' → blockLoop rules mn endLine fuel line he s = .ok t →
-      ∃ t', blockLoop rules' (mn + k) (endLine + n) fuel (line + n) he' s' = .ok t' ∧ TR k n spre pre t t' := by
+    ∀ (fuel line : Nat) (he he' : Bool) {tt pp spre pre s s'} (t : BState), TR tt pp k n spre pre s s' → (tt = true → he' = he) →
+      blockLoop rules mn endLine fuel line he s = .ok t →
+      ∃ t', blockLoop rules' (mn + k) (endLine + n) fuel (line + n) he' s' = .ok t' ∧ TR tt pp k n spre pre t t' := by
   intro fuel
   induction fuel with
   | zero =>
-    intro line he he' spre pre s s' t hsr h
+    intro line he he' tt pp spre pre s s' t hsr hhe h
     simp only [blockLoop] at h ⊢
     have c0 : (line + n < endLine + n) = (line < endLine) := propext ⟨fun h => by omega, fun h => by omega⟩
     simp only [c0]
@@ -564,7 +570,7 @@ theorem blockLoop_sh {k n} {rules rules' : List BRule} (hs : ShSims k n rules ru
     · rename_i hn; simp only [hn, ↓reduceIte]
       simp only [Except.ok.injEq] at h; subst h; exact ⟨_, rfl, hsr⟩
   | succ f ih =>
-    intro line he he' spre pre s s' t hsr h
+    intro line he he' tt pp spre pre s s' t hsr hhe h
     simp only [blockLoop] at h ⊢
     have c0 : (line + n < endLine + n) = (line < endLine) := propext ⟨fun h => by omega, fun h => by omega⟩
     simp only [c0]
@@ -612,7 +618,7 @@ theorem blockLoop_sh {k n} {rules rules' : List BRule} (hs : ShSims k n rules ru
                 rcases s2' with ⟨lines', ln', lm', bi', lv', tg', pt', tk', li'⟩
                 have hln : ln' = s2.line + n := hsr2.line
                 subst hln
-                have hsr3 := hsr2.setTight (!he) (!he')
+                have hsr3 := hsr2.setTight (!he) (!he') (fun h => by rw [hhe h])
                 have c4 : (s2.line + n ≤ line1 + n) = (s2.line ≤ line1) := propext ⟨fun h => by omega, fun h => by omega⟩
                 simp only [c4]
                 split at h
@@ -647,12 +653,12 @@ theorem blockLoop_sh {k n} {rules rules' : List BRule} (hs : ShSims k n rules ru
                         split at h
                         · rename_i h6; simp only [h6, ↓reduceIte]
                           rw [e7]
-                          exact ih _ _ _ _ (hsr3.setLineNo (s2.line + 1) (s2.line + 1 + n) rfl) h
+                          exact ih _ _ _ _ (hsr3.setLineNo (s2.line + 1) (s2.line + 1 + n) rfl) (fun _ => rfl) h
                         · rename_i h6; simp only [h6, ↓reduceIte]
-                          exact ih _ _ _ _ hsr3 h
+                          exact ih _ _ _ _ hsr3 (fun h => by rw [hhe h]) h
                     · rename_i h5
                       simp only [h5, ↓reduceIte]
-                      exact ih _ _ _ _ hsr3 h
+                      exact ih _ _ _ _ hsr3 (fun h => by rw [hhe h]) h
     · rename_i hlt
       simp only [hlt, ↓reduceIte]
       simp only [Except.ok.injEq] at h; subst h; exact ⟨_, rfl, hsr⟩
@@ -662,38 +668,38 @@ theorem blockLoop_sh {k n} {rules rules' : List BRule} (hs : ShSims k n rules ru
 theorem drop_set_shift {α} (l : List α) (i n : Nat) (x : α) : (l.set (i + n) x).drop n = (l.drop n).set i x := by
   rw [List.set_drop, Nat.add_comm]
 
-theorem TR.setLine {k n spre pre s s'} (h : TR k n spre pre s s') (i j : Nat) (hj : j = i + n) {a a' : BLine} (hz : zb a' = zb a) (ha : '\t' ∉ a.text) :
-    TR k n spre pre (s.setLine i a) (s'.setLine j a') := by
+theorem TR.setLine {tt pp k n spre pre s s'} (h : TR tt pp k n spre pre s s') (i j : Nat) (hj : j = i + n) {a a' : BLine} (hz : zb a' = zb a) (ha : '\t' ∉ a.text) :
+    TR tt pp k n spre pre (s.setLine i a) (s'.setLine j a') := by
   subst hj
-  refine ⟨?_, ?_, h.notab.set i ha, h.line, h.lineMax, h.blkIndent, h.level, h.listIndent, h.tokens⟩
+  refine ⟨?_, ?_, h.notab.set i ha, h.line, h.lineMax, h.blkIndent, h.level, h.listIndent, h.tight, h.parent, h.tokens⟩
   · show LR (s.lines.set i a) ((s'.lines.set (i + n) a').drop n)
     rw [drop_set_shift]; exact h.lines.set i hz
   · show (s'.lines.set (i + n) a').length = (s.lines.set i a).length + n
     simp [h.len]
 
-theorem TR.setLineMax {k n spre pre s s'} (h : TR k n spre pre s s') (a a' : Nat) (ha : a' = a + n) :
-    TR k n spre pre { s with lineMax := a } { s' with lineMax := a' } :=
-  ⟨h.lines, h.len, h.notab, h.line, ha, h.blkIndent, h.level, h.listIndent, h.tokens⟩
+theorem TR.setLineMax {tt pp k n spre pre s s'} (h : TR tt pp k n spre pre s s') (a a' : Nat) (ha : a' = a + n) :
+    TR tt pp k n spre pre { s with lineMax := a } { s' with lineMax := a' } :=
+  ⟨h.lines, h.len, h.notab, h.line, ha, h.blkIndent, h.level, h.listIndent, h.tight, h.parent, h.tokens⟩
 
-theorem TR.setBlk {k n spre pre s s'} (h : TR k n spre pre s s') (b : Int) : TR k n spre pre { s with blkIndent := b } { s' with blkIndent := b } :=
-  ⟨h.lines, h.len, h.notab, h.line, h.lineMax, rfl, h.level, h.listIndent, h.tokens⟩
+theorem TR.setBlk {tt pp k n spre pre s s'} (h : TR tt pp k n spre pre s s') (b : Int) : TR tt pp k n spre pre { s with blkIndent := b } { s' with blkIndent := b } :=
+  ⟨h.lines, h.len, h.notab, h.line, h.lineMax, rfl, h.level, h.listIndent, h.tight, h.parent, h.tokens⟩
 
 theorem quoteScan_sh {k n} {ts ts' : List BRule} (hs : ShSims k n ts ts') (endLine : Nat) :
-    ∀ (fuel next : Nat) (le : Bool) {spre pre s s'} (sv sv' : List BLine) (nx : Nat) (s2 : BState) (sv2 : List BLine),
-      TR k n spre pre s s' → LRs sv sv' → quoteScan ts endLine fuel next le s sv = .ok (nx, s2, sv2) →
-      ∃ s2' sv2', quoteScan ts' (endLine + n) fuel (next + n) le s' sv' = .ok (nx + n, s2', sv2') ∧ TR k n spre pre s2 s2' ∧ LRs sv2 sv2' := by
+    ∀ (fuel next : Nat) (le : Bool) {tt spre pre s s'} (sv sv' : List BLine) (nx : Nat) (s2 : BState) (sv2 : List BLine),
+      TR tt true k n spre pre s s' → LRs sv sv' → quoteScan ts endLine fuel next le s sv = .ok (nx, s2, sv2) →
+      ∃ s2' sv2', quoteScan ts' (endLine + n) fuel (next + n) le s' sv' = .ok (nx + n, s2', sv2') ∧ TR tt true k n spre pre s2 s2' ∧ LRs sv2 sv2' := by
   intro fuel
   induction fuel with
-  | zero => intro next le spre pre s s' sv sv' nx s2 sv2 _ _ h; simp [quoteScan] at h
+  | zero => intro next le tt spre pre s s' sv sv' nx s2 sv2 _ _ h; simp [quoteScan] at h
   | succ f ih =>
-    intro next le spre pre s s' sv sv' nx s2 sv2 hsr hsv h
+    intro next le tt spre pre s s' sv sv' nx s2 sv2 hsr hsv h
     simp only [quoteScan] at h ⊢
     have c0 : (next + n < endLine + n) = (next < endLine) := propext ⟨fun h => by omega, fun h => by omega⟩
     have e : next + n + 1 = next + 1 + n := by omega
     simp only [c0]
-    have fin : ∀ {x : BState} {x' : BState} {y y' : List BLine}, TR k n spre pre x x' → LRs y y' →
+    have fin : ∀ {x : BState} {x' : BState} {y y' : List BLine}, TR tt true k n spre pre x x' → LRs y y' →
         (Except.ok (next, x, y) : Except PyErr (Nat × BState × List BLine)) = .ok (nx, s2, sv2) →
-        ∃ s2' sv2', (Except.ok (next + n, x', y') : Except PyErr (Nat × BState × List BLine)) = .ok (nx + n, s2', sv2') ∧ TR k n spre pre s2 s2' ∧ LRs sv2 sv2' := by
+        ∃ s2' sv2', (Except.ok (next + n, x', y') : Except PyErr (Nat × BState × List BLine)) = .ok (nx + n, s2', sv2') ∧ TR tt true k n spre pre s2 s2' ∧ LRs sv2 sv2' := by
       intro x x' y y' hx hy he
       simp only [Except.ok.injEq, Prod.mk.injEq] at he
       obtain ⟨e1, e2, e3⟩ := he; subst e1; subst e2; subst e3
@@ -760,8 +766,8 @@ theorem quoteScan_sh {k n} {ts ts' : List BRule} (hs : ShSims k n ts ts') (endLi
                 exact ih _ _ _ _ _ _ _ (hsr1.setLine next (next + n) rfl hz2 hnt1) (hsv.snoc hz1 hnt1) h
     · rename_i hlt; simp only [hlt, ↓reduceIte]; exact fin hsr hsv h
 
-theorem restoreLines_sh {k n spre pre} : ∀ (sv sv' : List BLine) (s s' : BState) (start : Nat), TR k n spre pre s s' → LRs sv sv' →
-    TR k n spre pre (restoreLines s start sv) (restoreLines s' (start + n) sv') := by
+theorem restoreLines_sh {tt pp k n spre pre} : ∀ (sv sv' : List BLine) (s s' : BState) (start : Nat), TR tt pp k n spre pre s s' → LRs sv sv' →
+    TR tt pp k n spre pre (restoreLines s start sv) (restoreLines s' (start + n) sv') := by
   intro sv
   induction sv with
   | nil =>
@@ -800,23 +806,23 @@ theorem modify_sh (k : Int) (n : Nat) (pre ts : List Tok) (i : Nat) (m m' : Opti
     have : ps.length + 1 + i = (ps.length + i) + 1 := by omega
     rw [this, List.modify_succ_cons, ih]
 
-theorem blockTokenize_sh {k n} {rules rules' : List BRule} (hs : ShSims k n rules rules') (mn : Int) {spre pre s s'} (a b : Nat) (t : BState)
-    (hsr : TR k n spre pre s s') (h : blockTokenize rules mn s a b = .ok t) :
-    ∃ t', blockTokenize rules' (mn + k) s' (a + n) (b + n) = .ok t' ∧ TR k n spre pre t t' := by
+theorem blockTokenize_sh {k n} {rules rules' : List BRule} (hs : ShSims k n rules rules') (mn : Int) {tt pp spre pre s s'} (a b : Nat) (t : BState)
+    (hsr : TR tt pp k n spre pre s s') (h : blockTokenize rules mn s a b = .ok t) :
+    ∃ t', blockTokenize rules' (mn + k) s' (a + n) (b + n) = .ok t' ∧ TR tt pp k n spre pre t t' := by
   unfold blockTokenize at h ⊢
   have e : b + n - (a + n) + 1 = b - a + 1 := by omega
   rw [e]
-  exact blockLoop_sh hs mn b _ a false false t hsr h
+  exact blockLoop_sh hs mn b _ a false false t hsr (fun _ => rfl) h
 
 
 /-- start a new token segment: both prefixes become the whole token lists -/
-theorem TR.rebase {k n spre pre s s'} (h : TR k n spre pre s s') : TR k n s.tokens s'.tokens s s' :=
-  ⟨h.lines, h.len, h.notab, h.line, h.lineMax, h.blkIndent, h.level, h.listIndent, ⟨[], by simp, by simp⟩⟩
+theorem TR.rebase {tt pp k n spre pre s s'} (h : TR tt pp k n spre pre s s') : TR tt pp k n s.tokens s'.tokens s s' :=
+  ⟨h.lines, h.len, h.notab, h.line, h.lineMax, h.blkIndent, h.level, h.listIndent, h.tight, h.parent, ⟨[], by simp, by simp⟩⟩
 
 /-- a push whose two maps need not be related yet (the opening token of a container, patched later): related after a rebase -/
-theorem TR.pushRebase {k n spre pre s s'} (h : TR k n spre pre s s') (a b : String) (ne : Int) (m m' c d e f) :
-    TR k n (s.pushFull a b ne m c d e f).tokens (s'.pushFull a b ne m' c d e f).tokens (s.pushFull a b ne m c d e f) (s'.pushFull a b ne m' c d e f) := by
-  refine ⟨h.lines, h.len, h.notab, h.line, h.lineMax, h.blkIndent, ?_, h.listIndent, ⟨[], by simp, by simp⟩⟩
+theorem TR.pushRebase {tt pp k n spre pre s s'} (h : TR tt pp k n spre pre s s') (a b : String) (ne : Int) (m m' c d e f) :
+    TR tt pp k n (s.pushFull a b ne m c d e f).tokens (s'.pushFull a b ne m' c d e f).tokens (s.pushFull a b ne m c d e f) (s'.pushFull a b ne m' c d e f) := by
+  refine ⟨h.lines, h.len, h.notab, h.line, h.lineMax, h.blkIndent, ?_, h.listIndent, h.tight, h.parent, ⟨[], by simp, by simp⟩⟩
   simp only [BState.pushFull, h.level]; split <;> split <;> omega
 
 theorem setMap_pushed_shift (k : Int) (n : Nat) (s s' : BState) (hl : s'.level = s.level + k) (a b : String) (ne : Int) (m0 m0' m m' c d e f)
@@ -829,7 +835,7 @@ theorem setMap_pushed_shift (k : Int) (n : Nat) (s s' : BState) (hl : s'.level =
 
 theorem sh_quote (k : Int) (n : Nat) (codeOn : Bool) {ts ts' inner inner' : List BRule} (hts : ShSims k n ts ts') (hin : ShSims k n inner inner') (mn : Int) :
     ShSim k n (ruleBlockquote codeOn ts inner mn) (ruleBlockquote codeOn ts' inner' (mn + k)) := by
-  intro spre pre s s' line endLine silent m t hsr h
+  intro tt pp spre pre s s' line endLine silent m t hsr hsil h
   unfold ruleBlockquote at h
   obtain ⟨l, hg, h⟩ := getL_cases h
   obtain ⟨l', hg', hz, hnt⟩ := getL_sh hsr line (line + n) rfl l hg
@@ -839,7 +845,7 @@ theorem sh_quote (k : Int) (n : Nat) (codeOn : Bool) {ts ts' inner inner' : List
     · cases silent <;> simp only [↓reduceIte, Bool.false_eq_true] at h ⊢
       · -- the real work
         obtain ⟨q1, q2, q3⟩ := quoteStrip_sim hz hnt
-        have hsr1 := ((hsr.setLine line (line + n) rfl q1 q3).setParent "blockquote" "blockquote")
+        have hsr1 := ((hsr.setLine line (line + n) rfl q1 q3).setParent true "blockquote" "blockquote" (fun _ => rfl))
         cases hq : quoteScan ts endLine (endLine - line + 1) (line + 1) (quoteStrip l).2
             { (s.setLine line (quoteStrip l).1) with parentType := "blockquote" } [l] with
         | error e => rw [hq] at h; cases h
@@ -865,10 +871,10 @@ theorem sh_quote (k : Int) (n : Nat) (codeOn : Bool) {ts ts' inner inner' : List
             -- the state after the closing token and the map patch
             obtain ⟨ts2, a2, b2⟩ := hsr2.tokens
             obtain ⟨ts4, a4, b4⟩ := hsr4.tokens
-            have hsr6 : TR k n spre pre
+            have hsr6 : TR tt pp k n spre pre
                 (finish6 (s4.pushFull "blockquote_close" "blockquote" (-1) none none "" ">" "") s.lineMax s.parentType s2.tokens.length line)
                 (finish6 (s4'.pushFull "blockquote_close" "blockquote" (-1) none none "" ">" "") s'.lineMax s'.parentType s2'.tokens.length (line + n)) := by
-              refine ⟨hsr4.lines, hsr4.len, hsr4.notab, hsr4.line, hsr.lineMax, hsr4.blkIndent, ?_, hsr4.listIndent, ?_⟩
+              refine ⟨hsr4.lines, hsr4.len, hsr4.notab, hsr4.line, hsr.lineMax, hsr4.blkIndent, ?_, hsr4.listIndent, hsr4.tight, hsr.parent, ?_⟩
               · unfold finish6
                 show (s4'.pushFull "blockquote_close" "blockquote" (-1) none none "" ">" "").level
                   = (s4.pushFull "blockquote_close" "blockquote" (-1) none none "" ">" "").level + k
@@ -1029,15 +1035,15 @@ theorem suffix_shift (c : MiniCfg) (ws : List Nat) (mn : Int) (lsB : List (List 
       rcases hl with ⟨x, hx, rfl⟩ | rfl
       · exact (hcl x hx).2.1
       · simp [sentinelLine]
-    have htr : TR 0 n [] s'.tokens (stD (l0 :: rest)) s' := by
-      refine ⟨?_, ?_, hNT, ?_, ?_, hs.blkIndent, ?_, hs.listIndent, ⟨[], rfl, by simp⟩⟩
+    have htr : TR false false 0 n [] s'.tokens (stD (l0 :: rest)) s' := by
+      refine ⟨?_, ?_, hNT, ?_, ?_, hs.blkIndent, ?_, hs.listIndent, (fun h => by cases h), (fun h => by cases h), ⟨[], rfl, by simp⟩⟩
       · rw [hs.lines]; rfl
       · rw [hs.len, stD_len]
       · rw [hs.line]; show n = 0 + n; omega
       · rw [hs.lineMax]; rfl
       · rw [hs.level]; rfl
     unfold blockTokenize at hrun
-    obtain ⟨t', hrun', htr'⟩ := blockLoop_sh (qChain_shs 0 n c ws mn (mn.toNat + 1)) mn (l0 :: rest).length _ 0 false he tD htr hrun
+    obtain ⟨t', hrun', htr'⟩ := blockLoop_sh (qChain_shs 0 n c ws mn (mn.toNat + 1)) mn (l0 :: rest).length _ 0 false he tD htr (fun h => by cases h) hrun
     rw [Int.add_zero, Nat.zero_add] at hrun'
     refine ⟨t', blockLoop_fuel _ _ _ _ _ _ _ _ hrun' f (by omega), ?_⟩
     obtain ⟨ts, a1, a2⟩ := htr'.tokens
